@@ -27,14 +27,22 @@ THEOREMS = ['Props.C11.' + t for t in [
     'subdivision_boundary_identity', 'area_additive_over_chain', 'refine_column_conserves_area',
     'decompose_cases_boundary_identity', 'decompose_cases_conserve_area', 'triangulate_conserves_area',
     'decompose_conserves_area', 'split_column_boundary_identity', 'split_column_conserves_area',
-    'refine_layers_piece_sum', 'refine_layers_conserves_thickness', 'triangle_subcolumns_positive']]
+    'refine_layers_piece_sum', 'refine_layers_conserves_thickness', 'triangle_subcolumns_positive',
+    'subdivision_conforming', 'subdivision_edge_multiset', 'subcolumns_share_full_edges',
+    'boundary_edge_in_exactly_one_subcolumn', 'decompose_cases_conforming', 'decompose_subcolumns_share_full_edges',
+    'split_column_conforming']]
 LEVEL_TEXT = ('Partial proof. Proved in Lean 4 (no sorry), over the subdivision tables regenerated from mulgrids.py on every run: the model of '
               'transition_type equals the source function on its whole domain; every non-empty set of refined sides of a 3- or 4-sided column '
               'has a table entry that uses only existing nodes; for every entry and rotation the sub-columns\' directed edges cancel to the '
               'parent boundary with exactly the refined sides split (decide over the whole table), and therefore - for ALL corner coordinates '
               'and ANY centre-node position - the signed areas of the new columns add up to the old column\'s (refine, split_column, the 5 '
               'special cases of decompose_column for every start node, triangulate_column for every number of sides, decompose_column '
-              'whichever branch fires); refine_layers keeps the total thickness of the layer stack for every selection and factor. every sub-column of a refined TRIANGLE is a fixed positive fraction (1/2, 1/4, 3/4) of it for all coordinates. NOT proved: positivity of the sub-columns of quadrilaterals (needs convexity) / point-wise tiling (winding numbers), conformity of the '
+              'whichever branch fires); CONFORMITY of every transition_column entry (every rotation), every decompose_column special case (every start '
+              'node) and split_column, by decide over the whole generated tables: no directed edge is used twice, every sub-column edge is either '
+              'an edge of the refined parent boundary (never used reversed) or an interior edge whose reverse belongs to exactly one other '
+              'sub-column, every refined-boundary edge belongs to exactly one sub-column, the edge multiset is boundary + I + reverse(I), and '
+              'no refined side is used unsplit by a sub-column - hence sub-columns share full edges and no mid-side node hangs inside a '
+              'sub-column edge (within one parent); refine_layers keeps the total thickness of the layer stack for every selection and factor. every sub-column of a refined TRIANGLE is a fixed positive fraction (1/2, 1/4, 3/4) of it for all coordinates. NOT proved: positivity of the sub-columns of quadrilaterals (needs convexity) / point-wise tiling (winding numbers), conformity of the '
               'whole refined mesh, conservation of totals for the whole geometry (sum over all columns / blocks) - these are evaluated in exact arithmetic by the '
               'oracle on every explored history and the whole-geometry model is tied to the code by the C10 correspondence.')
 LEVEL_NOTE = ('Trusted: Lean kernel (+propext, Classical.choice, Quot.sound); the translator harness/translate/refine_tables.py (tables are '
